@@ -165,6 +165,10 @@ def find_promoted(mir_text, fn_tail_re):
         c = re.search(r'const "((?:[^"\\]|\\.)*)"', m.group(2))
         if c:
             out[int(m.group(1))] = c.group(1)
+            continue
+        c = re.search(r"const (-?\d+)_[ui]\d+;", m.group(2))
+        if c:
+            out[int(m.group(1))] = int(c.group(1))
     return out
 
 
@@ -337,6 +341,9 @@ class Exec:
 
     def rvalue(self, path, s):
         s = s.strip()
+        m = re.match(r"(move|copy) (.+?) as .+ \(\w+(\(.*\))?\)$", s)
+        if m:
+            return self.operand(path, m.group(1) + " " + m.group(2))
         if s.startswith(("move ", "copy ", "const ", "no_retag ")):
             return self.operand(path, s)
         m = re.match(r"&(?:mut |raw const |raw mut )?(.*)$", s)
